@@ -10,3 +10,15 @@ claim("C06", "differential testing against a reference recogniser/tree builder: 
       "As C05 for the type-system grammar: a 31-lexeme alphabet to length 4/5 plus ten head+sub-alphabet families to length 5/6 (+1 on viable prefixes), generated type-system trees rendered three ways, mutants, near misses, and the built-in flag for both source kinds.",
       "Trusted: harness/ref lexer+parser. Recorded deviations are modelled as grammar deltas (known-findings.txt).",
       "6/C06")
+claim("C01", "generated-input search with a validity oracle: lexical soups (rapid), bounded-exhaustive hostile strings, exhaustive prefixes/deletions of example documents, size-parametrised adversarial families with timing, native fuzzing (thorough)",
+      "Every input goes through the lexer to the end and through all six parser entry points at eight token limits; the oracle demands normal return, document-xor-error, and error locations inside the input. 25 families of pathological shape are run up to 64 KiB without limit (growth ratio and absolute bound on wall time) and up to 8 MiB under finite limits; a process death is attributed to the in-flight family member.",
+      "Absence of crashes is only established on the inputs explored; time bounds are wall-clock minima with wide margins, not proofs of a polynomial.",
+      "6/C01")
+claim("C04", "generated documents with adversarial ignored text, oracle = independent offset-to-line/column table and reference token starts; reflection walk over all positions",
+      "Token positions, every *ast.Position reachable from parsed documents (1-4 sources) and every syntax-error location are recomputed from the source text by a ten-line scan (LF, CR, CRLF; code-point columns) and must agree; name-bearing nodes must point at the token spelling their name and definitions at the file they were written in.",
+      "Trusted: harness/ref LineCol and lexer. One recorded deviation (quoted-string column, pinned by the repository's own tests) is modelled as a relaxation.",
+      "6/C04")
+claim("C16", "exhaustive sweep of all limits 0..N+2 per generated document, metamorphic tail-replacement, multi-megabyte families with time and allocation bounds",
+      "For each generated, mutated or broken document of either grammar every limit from 0 to token-count+2 is tried: exactness against the reference token count, identity of tree and positions with the unlimited parse, monotonicity, and independence from everything after token L+2 (replaced by invalid bytes, an unterminated string, 64 KiB of brackets). 25 families of 1-8 MiB must fail fast with bounded allocation under limits 1..100000.",
+      "Token counts come from the reference lexer; work bounds are observed through tail independence, wall time and allocation deltas, not through instrumentation.",
+      "6/C16")
